@@ -1,8 +1,116 @@
 (* Property C15 — statements only.  Each theorem is closed by [exact] of a lemma proved
-   in the C15/ files; Print Assumptions is evaluated by ./check on every run. *)
-From Coq Require Import List ZArith.
-From TskVerif Require Import C15.Combination C15.CombProofs.
+   in the C15/ files; Print Assumptions is evaluated by ./check on every run.
 
+   Reading guide: [comb], [unrank], [from_range_rank], [with_replacement_rank/unrank],
+   [rule_asc], [tree_unrank], [tree_rank], [all_trees] are the Gallina models of the
+   functions of the same name in python/tskit/combinatorics.py (tree_unrank = Tree.unrank,
+   tree_rank = Tree.rank).  [combs], [cwr_list], [asc_compositions], [spec_trees],
+   [reorderings], [binom], [mchoose] are specifications (C15/Combination.v, TopoSpec.v). *)
+From Coq Require Import List ZArith Permutation.
+From TskVerif Require Import Base.Common C15.Combination C15.Partitions C15.RankTree
+  C15.TopoSpec C15.CombProofs C15.CombRankProofs C15.WRProofs C15.RankTreeBounded.
+Import ListNotations.
+Open Scope Z_scope.
+
+(* ---- Combination.comb ---- *)
 Theorem comb_is_binomial : forall n k : nat, (k <= n)%nat ->
   comb (Z.of_nat n) (Z.of_nat k) = Z.of_nat (binom n k).
 Proof. exact comb_binom_nat. Qed.
+
+(* ---- (a) Combination.unrank / from_range_rank: lexicographic bijection ---- *)
+(* the specification list has C(n,k) entries and contains exactly the k-element
+   sub-sequences; over [lo, lo+cnt) it is strictly increasing lexicographically *)
+Theorem combs_count : forall (els : list Z) k, length (combs els k) = binom (length els) k.
+Proof. exact (@combs_length Z). Qed.
+
+Theorem combs_are_the_k_subsets : forall (els : list Z) k c,
+  In c (combs els k) <-> (subseq c els /\ length c = k).
+Proof. exact (@combs_spec Z). Qed.
+
+Theorem combs_lexicographic : forall cnt lo k, chain lex_lt (combs (zrange lo cnt) k).
+Proof. exact combs_lex_sorted. Qed.
+
+(* unrank returns the r-th combination for every r >= 0, k >= 1; in particular it is
+   None (= ValueError) exactly when r >= C(n,k) *)
+Theorem comb_unrank_is_nth : forall (els : list Z) k r,
+  (1 <= k)%nat -> 0 <= r -> unrank r els k = nth_error (combs els k) (Z.to_nat r).
+Proof. exact (@unrank_spec Z). Qed.
+
+Theorem comb_unrank_out_of_range_rejected : forall (els : list Z) k r,
+  (1 <= k)%nat -> Z.of_nat (binom (length els) k) <= r -> unrank r els k = None.
+Proof. exact (@unrank_out_of_range Z). Qed.
+
+Theorem comb_unrank_rank : forall n k r c,
+  (1 <= k)%nat -> 0 <= r -> unrank r (zrange 0 n) k = Some c ->
+  from_range_rank (S n) c (Z.of_nat n) = Some r /\ r < Z.of_nat (binom n k).
+Proof. exact comb_unrank_then_rank. Qed.
+
+Theorem comb_rank_unrank : forall n k c,
+  In c (combs (zrange 0 n) k) ->
+  exists r, from_range_rank (S n) c (Z.of_nat n) = Some r /\
+            0 <= r < Z.of_nat (binom n k) /\
+            (k = 0%nat \/ unrank r (zrange 0 n) k = Some c).
+Proof. exact comb_rank_then_unrank. Qed.
+
+(* ---- (b) with_replacement_rank / with_replacement_unrank ---- *)
+Theorem wr_rank_unrank : forall n k,
+  length (cwr_list k (zrange 0 n)) = mchoose n k /\
+  forall r c, nth_error (cwr_list k (zrange 0 n)) r = Some c ->
+    with_replacement_rank c (Z.of_nat n) = Some (Z.of_nat r) /\
+    with_replacement_unrank (Z.of_nat r) (Z.of_nat n) k = Some c.
+Proof. exact wr_rank_unrank_bijection. Qed.
+
+Theorem wr_count_is_multichoose : forall n k,
+  comb_with_replacement (Z.of_nat (S n)) (Z.of_nat k) = Z.of_nat (mchoose (S n) k).
+Proof. exact cwr_mchoose. Qed.
+
+Theorem wr_list_members : forall k m lo c,
+  In c (cwr_list k (zrange lo m)) ->
+  length c = k /\ nondecr_from lo c /\ Forall (fun x => x < lo + Z.of_nat m) c.
+Proof. exact cwr_list_members. Qed.
+
+(* the while loop of with_replacement_unrank terminates for every input *)
+Theorem wr_unrank_terminates : forall k rank n, exists l, with_replacement_unrank rank n k = Some l.
+Proof. exact wr_unrank_total. Qed.
+
+(* ... but the helper accepts out-of-range ranks (not reachable through Tree.unrank) *)
+Theorem wr_unrank_oor_refuted : mchoose 1 1 = 1%nat /\ with_replacement_unrank 5 1 1 = Some [5].
+Proof. exact wr_unrank_oor_not_rejected. Qed.
+
+(* ---- (d) RankTree, bounded: the bound on the number of leaves is in the statement ----
+   Unbounded statements (not proved; kept for reference):
+     unrank_then_rank      : forall n >= 2 (and n = 1 with s = 0), s < num_shapes n,
+                             l < num_labellings n s: tree_rank (tree_unrank n s l) = (s,l)
+     rank_then_unrank      : forall n, is_topology n t -> tree_unrank n (tree_rank t) ~ t
+     all_trees_enumerates  : forall n, all_trees n lists {t | is_topology n t} once, in rank order
+     rank_child_order_invariant : forall t t', t' a reordering of t -> tree_rank t' = tree_rank t *)
+Theorem unrank_then_rank_bounded : forall n s l S N,
+  1 <= n <= 6 -> num_shapes n = Ok S -> 0 <= s < S ->
+  num_labellings n s = Ok N -> 0 <= l < N ->
+  exists t, tree_unrank n s l = Ok t /\ tree_rank t = Ok (s, l).
+Proof. exact RankTreeBounded.unrank_then_rank_bounded. Qed.
+
+Theorem rank_then_unrank_bounded : forall n t,
+  1 <= n <= 6 -> In t (spec_trees n) ->
+  exists s l t', tree_rank t = Ok (s, l) /\ tree_unrank n s l = Ok t' /\ pt_canon t' = pt_canon t.
+Proof. exact RankTreeBounded.rank_then_unrank_bounded. Qed.
+
+Theorem all_trees_enumerates_bounded : forall n,
+  1 <= n <= 6 ->
+  exists ts rs,
+    all_trees n = Ok ts /\ dense_ranks n = Ok rs /\
+    NoDup (map pt_canon ts) /\
+    (forall t, In t (map pt_canon ts) <-> In t (map pt_canon (spec_trees n))) /\
+    rmap tree_rank ts = Ok rs.
+Proof. exact RankTreeBounded.all_trees_enumerates_bounded. Qed.
+
+Theorem rank_child_order_invariant_bounded : forall n t t',
+  1 <= n <= 5 -> In t (spec_trees n) -> In t' (reorderings t) ->
+  exists r, tree_rank t = Ok r /\ tree_rank t' = Ok r.
+Proof. exact RankTreeBounded.rank_child_order_invariant_bounded. Qed.
+
+(* ---- (e) out-of-range ranks: F13 ---- *)
+Theorem unrank_oor_n1_refuted :
+  exists s, num_shapes 1 = Ok 1 /\ s >= 1 /\
+            tree_unrank 1 s 0 = Ok (PL 0) /\ tree_rank (PL 0) = Ok (0, 0).
+Proof. exact unrank_oor_n1_refuted_w. Qed.
